@@ -3,9 +3,11 @@ package detectsim
 import (
 	"encoding/hex"
 	"errors"
+	"fmt"
 	"io"
 	"runtime"
 	"sync"
+	"time"
 
 	"github.com/Trisia/randomness/simrt"
 	"github.com/Trisia/randomness/simrt/simctl"
@@ -235,6 +237,7 @@ type SimSource struct {
 	ShortReads int
 	EOFWithData int
 	EmptyReads int
+	SlowReads  int
 	lastEmpty  bool
 	toggle     bool
 	stuck      bool
@@ -248,12 +251,28 @@ func NewSimSource(st *Stream, c *RunConfig, sim bool) *SimSource {
 	return &SimSource{st: st, chunk: c.Chunk, fault: c.Fault, rng: simctl.NewRand(c.Chunk.Seed ^ 0xc4a1), readYield: c.ReadYield, sim: sim, LogCap: 64, FirstErrAt: -1}
 }
 
+// tempError is a failure that describes itself as temporary and as a timeout
+// (what net.Error and some device drivers return). It is still an error: a
+// workflow that got it did not get its bytes.
+type tempError struct{}
+
+func (tempError) Error() string   { return "simulated device: resource temporarily unavailable" }
+func (tempError) Temporary() bool { return true }
+func (tempError) Timeout() bool   { return true }
+
+// ErrWrappedEOF is a custom error that wraps io.EOF (errors.Is(err, io.EOF) holds, err == io.EOF does not).
+var ErrWrappedEOF = fmt.Errorf("simulated device: stream closed by peer: %w", io.EOF)
+
 func (s *SimSource) faultErr() error {
 	switch s.fault.Kind {
 	case "eof", "partialeof":
 		return io.EOF
 	case "ueof":
 		return io.ErrUnexpectedEOF
+	case "wrapeof":
+		return ErrWrappedEOF
+	case "temporary":
+		return tempError{}
 	default:
 		return ErrDevice
 	}
@@ -312,6 +331,14 @@ func (s *SimSource) Read(p []byte) (int, error) {
 	s.mu.Unlock()
 	if yield {
 		simrt.Yield("device.read")
+	}
+	if s.sim && s.chunk.Delay > 0 && s.Reads%s.chunk.Delay == 0 {
+		// slow device: simulated time passes inside the Read
+		time.Sleep(time.Duration(s.chunk.DelaySec) * time.Second)
+		simrt.Yield("device.read.slow")
+		s.mu.Lock()
+		s.SlowReads++
+		s.mu.Unlock()
 	}
 	if !s.sim {
 		stir(uint64(s.Reads))
